@@ -362,3 +362,24 @@ def run(ctx):
                         ctx.where(WB, bb), key='WHO:%s:partial-write' % q)
     if n_w1 == 0:
         ctx.ok('C01.1-writer-complete', 'encoder', 'no partial write primitive in the encoder')
+
+    # the text of an atom: UTF-8 tags are read as UTF-8
+    ctx.rule('C01.2-utf8-atoms-as-utf8', 'the parsers of ATOM_UTF8_EXT (118) and SMALL_ATOM_UTF8_EXT (119), which is what the encoder writes for every atom, turn the bytes into text with a UTF-8 conversion on every successful path '
+             '(a byte-per-character reading, right for the Latin-1 tags, gives another atom for every non-ASCII name)', floor=2)
+    for tbl_, adt_, nm_ in ((dec, OWNED, 'owned'), (dec_b, BORROWED, 'borrowed')):
+        for tag_ in (118, 119):
+            ent_ = (tbl_ or {}).get(tag_)
+            if not ent_ or not ent_.get('parser'):
+                continue
+            UB = P.B(ent_['parser'])
+            utf8 = set(bb for bb, t_ in UB.calls() if any(n_.endswith('::from_utf8') or n_.endswith('::from_utf8_lossy') or n_.endswith('::from_utf8_unchecked') for n_ in callee_names(t_)))
+            oks_ = set(bb for bb, j, st in UB.stmts() if st['k'] == '=' and st['rv']['k'] == 'agg' and st['rv'].get('var') == 'Ok' and str(st['rv'].get('adt')) == 'core::result::Result'
+                       and (st['pl']['l'] == 0 or 0 in UB.derived_locals([st['pl']['l']])))
+            inst_ = '%s:%d' % (nm_, tag_)
+            if utf8 and oks_ and UB.all_paths_pass(0, utf8, oks_):
+                ctx.ok('C01.2-utf8-atoms-as-utf8', inst_, 'every successful path converts with from_utf8', ctx.where(UB))
+            elif not oks_:
+                ctx.undecided('C01.2-utf8-atoms-as-utf8', inst_, 'no Ok(..) construction found in %s' % ent_['parser'])
+            else:
+                ctx.bad('C01.2-utf8-atoms-as-utf8', inst_, '%s has a successful path that never converts the bytes as UTF-8: a name with a multi-byte character decodes to a different atom than was encoded'
+                        % ent_['parser'].rsplit('::', 1)[1], ctx.where(UB), key='SHAPE:%s:utf8-atom-not-read-as-utf8' % ent_['parser'])
